@@ -10,7 +10,7 @@
 From CB Require Import Spec Unstable.
 From Coq Require Import Permutation.
 From CBP Require Import Step RefDefs C02Lemmas Arith AbsLemmas AllOps FaultDefs FaultPrims FaultDropA FaultDropB FaultUser
-     Iters DrainP ExtendIo CmpHash Ctors PhysMoves MoreOps UnstableEq Access Views RefTruncate FillExtend FaultFrame SpecCorollaries.
+     Iters DrainP ExtendIo CmpHash Ctors PhysMoves MoreOps UnstableEq Access Views RefTruncate FillExtend FaultFrame SpecCorollaries ValueCorollaries FaultGeneric FaultHistory.
 
 
 Theorem C07_get :
@@ -147,3 +147,18 @@ Theorem C07_distinct_slots :
   phys s i = phys s j -> i = j.
 Proof. exact (phys_inj). Qed.
 Print Assumptions C07_distinct_slots.
+
+Theorem C07_as_mut_slices_distinct :
+  forall ws s w a b s' w',
+  WF s -> exec (OAsMutSlicesSet ws) s w = (Ok (OutSlices a b), s', w') ->
+  map fst (a ++ b) = map (phys s) (zseq 0 (Z.to_nat (size s))) /\
+  NoDup (map fst (a ++ b)) /\ map snd (a ++ b) = abs s.
+Proof. exact (as_mut_slices_slots_distinct). Qed.
+Print Assumptions C07_as_mut_slices_distinct.
+
+Theorem C07_iter_mut_distinct :
+  forall script s w rs s' w',
+  WF s -> exec (OIterMut script) s w = (Ok (OutScript rs), s', w') ->
+  NoDup (slots_of rs) /\ incl (slots_of rs) (map (phys s) (zseq 0 (Z.to_nat (size s)))).
+Proof. exact (iter_mut_slots_distinct). Qed.
+Print Assumptions C07_iter_mut_distinct.
